@@ -11,7 +11,11 @@ CONSTANTS
   EofWithData = TRUE
   ShapesA <- LocalShapes
   ShapesB <- AllShapes
-  DevDrainDeadline = FALSE
+  DevDeadlineAt = "none"
+  DevDeadlineHits = {"read"}
+  Monitor = FALSE
+  IdleMax = 2
+  DevMonNoFeed = FALSE
   DevCloseWriterFallback = FALSE
   Emit = FALSE
   Classes = @@CLASSES@@
@@ -32,8 +36,9 @@ CONSTANTS
   DevNoInnerFlush = @@NOINNER@@
   SockQueue = @@SOCKQ@@
   DevQueueRefs = @@QREFS@@
+  DevSockDeadline = FALSE
   DevDropOnClose = @@DROP@@
 SPECIFICATION USpec
-INVARIANTS UTypeOK UDatagrams UComplete UCompleteAny UEncoded UFlushed UMutex UBuf UBatchFits
+INVARIANTS UTypeOK UDatagrams UComplete UCompleteAny UEncoded UFlushed UMutex UBuf UBatchFits UNoSpuriousEnd
 PROPERTIES UDelivMonotone UEventuallyFlushed @@LIVE@@
 CHECK_DEADLOCK FALSE
